@@ -14,7 +14,7 @@ SHARDS = {"quick": 4, "thorough": 16}
 WATCHDOG = {"quick": 900, "thorough": 3000}
 SOAK = {"thorough": ['tests/stress/test_equistress.py', 'tests/strength']}      # contract soak (pv/contracts_more.py) under the repository's own tests
 REQUIRED_CLASSES = {t: ["tensor:uniaxial", "tensor:pure_shear", "tensor:hydrostatic", "tensor:repeated_eigenvalues", "tensor:zero",
-                        "tensor:generic", "tensor:rotated_hydrostatic", "tensor:shear_only_in_plane_12", "tensor:shear_only_in_plane_13", "tensor:shear_only_in_plane_23", "input:scalar", "input:columns", "input:integer_typed_columns", "sign:near_tie_not_judged",
+                        "tensor:generic", "tensor:nearly_hydrostatic", "magnitude<1e-6", "magnitude>1e6", "tensor:rotated_hydrostatic", "tensor:shear_only_in_plane_12", "tensor:shear_only_in_plane_13", "tensor:shear_only_in_plane_23", "input:scalar", "input:columns", "input:integer_typed_columns", "sign:near_tie_not_judged",
                         "sign:exact_tie_unrotated"]
                     for t in ("quick", "thorough")}
 REQUIRED_MONITORS = ["rotation_invariant:eigen_based", "rotation_invariant:mises^2", "homogeneous", "definition:mises", "definition:tresca",
@@ -40,7 +40,7 @@ def finish(ctx):
     ctx.extra["reach"] = reach.report()
 
 
-KINDS = ["uniaxial", "pure_shear", "hydrostatic", "repeated_eigenvalues", "zero", "generic", "generic", "generic"]
+KINDS = ["uniaxial", "pure_shear", "hydrostatic", "repeated_eigenvalues", "zero", "generic", "generic", "generic", "nearly_hydrostatic"]
 
 
 def generate(ctx):
@@ -51,7 +51,8 @@ def generate(ctx):
 
 
 def _tensor(kind, rng):
-    scale = float(10 ** rng.uniform(-3, 4))
+    # stresses in any unit: usually 1e-3 .. 1e4, in a fifth of the cases from 1e-12 (e.g. normalised fields) to 1e9 (Pa)
+    scale = float(10 ** rng.uniform(-3, 4)) if rng.random() < 0.8 else float(10 ** rng.uniform(-12, 9))
     if kind == "uniaxial":
         w = np.array([scale * rng.choice([-1, 1]), 0.0, 0.0])
     elif kind == "pure_shear":
@@ -61,6 +62,9 @@ def _tensor(kind, rng):
     elif kind == "repeated_eigenvalues":
         a, b = rng.normal(0, scale, 2)
         w = np.array([a, a, b])
+    elif kind == "nearly_hydrostatic":
+        # a large pressure with a deviatoric part five to six orders of magnitude below it
+        w = scale * rng.choice([-1, 1]) * (1.0 + rng.uniform(-1, 1, 3) * 10 ** rng.uniform(-6.5, -4.5))
     elif kind == "zero":
         w = np.zeros(3)
     else:
@@ -87,7 +91,7 @@ def run_case(case, ctx):
     kind = case["kind"]
     w0, scale = _tensor(kind, rng)
     ctx.tag("tensor:" + kind)
-    Q0 = _rot(rng) if kind in ("generic", "repeated_eigenvalues", "uniaxial", "pure_shear") and rng.random() < 0.7 else np.eye(3)
+    Q0 = _rot(rng) if kind in ("generic", "repeated_eigenvalues", "uniaxial", "pure_shear", "nearly_hydrostatic") and rng.random() < 0.7 else np.eye(3)
     if kind in ("generic", "repeated_eigenvalues", "uniaxial", "pure_shear") and rng.random() < 0.3:
         # a state given in a frame that is turned about one coordinate axis only: two shear components are exactly zero
         ax = int(rng.integers(0, 3))
@@ -104,6 +108,10 @@ def run_case(case, ctx):
     TR = (TR + TR.T) / 2
     if kind == "hydrostatic":
         ctx.tag("tensor:rotated_hydrostatic")
+    if scale < 1e-6:
+        ctx.tag("magnitude<1e-6")
+    if scale > 1e6:
+        ctx.tag("magnitude>1e6")
     c = float(10 ** rng.uniform(-2, 2))
     ctx.nontrivial(kind not in ("zero", "hydrostatic"))
     ev = np.linalg.eigvalsh(T)
